@@ -727,6 +727,9 @@ pub enum ROp {
     Set(SvgOp),
     Svg(usize),
     Png(usize),
+    /// fit_width / fit_height on the long-lived ImageBuilder (last value wins per dimension)
+    FitW(u32),
+    FitH(u32),
 }
 
 #[derive(Clone, Debug)]
@@ -737,7 +740,7 @@ pub struct RHistory {
 
 pub fn rhist_json(h: &RHistory) -> Value {
     json!({"kind": "renderer_history", "qrs": h.qrs.iter().map(|b| b.to_json()).collect::<Vec<_>>(),
-           "ops": h.ops.iter().map(|o| match o { ROp::Set(s) => json!({"set": svg_op_json(s)}), ROp::Svg(i) => json!({"svg": i}), ROp::Png(i) => json!({"png": i}) }).collect::<Vec<_>>()})
+           "ops": h.ops.iter().map(|o| match o { ROp::Set(s) => json!({"set": svg_op_json(s)}), ROp::Svg(i) => json!({"svg": i}), ROp::Png(i) => json!({"png": i}), ROp::FitW(w) => json!({"fit_width": w}), ROp::FitH(h) => json!({"fit_height": h}) }).collect::<Vec<_>>()})
 }
 
 fn rhist_from(v: &Value) -> Option<RHistory> {
@@ -745,6 +748,8 @@ fn rhist_from(v: &Value) -> Option<RHistory> {
     let ops = v.get("ops")?.as_array()?.iter().filter_map(|o| {
         if let Some(s) = o.get("set") { return Some(ROp::Set(svg_op_from(s)?)); }
         if let Some(i) = o.get("svg").and_then(|x| x.as_u64()) { return Some(ROp::Svg(i as usize)); }
+        if let Some(w) = o.get("fit_width").and_then(|x| x.as_u64()) { return Some(ROp::FitW(w as u32)); }
+        if let Some(h) = o.get("fit_height").and_then(|x| x.as_u64()) { return Some(ROp::FitH(h as u32)); }
         o.get("png").and_then(|x| x.as_u64()).map(|i| ROp::Png(i as usize))
     }).collect();
     Some(RHistory { qrs, ops })
@@ -761,6 +766,7 @@ pub fn check_rhistory(h: &RHistory, obs: &mut Obs) -> Result<(), Fail> {
     let mut prog_png: Vec<SvgOp> = Vec::new();
     let mut renders = 0u64;
     let mut sizes = std::collections::BTreeSet::new();
+    let (mut fit_w, mut fit_h): (Option<u32>, Option<u32>) = (None, None);
     for (i, op) in h.ops.iter().enumerate() {
         match op {
             ROp::Set(o) => {
@@ -770,6 +776,14 @@ pub fn check_rhistory(h: &RHistory, obs: &mut Obs) -> Result<(), Fail> {
                     pc("ImageBuilder setter", || apply_svg_op(&mut ppng, o))?;
                     prog_png.push(o.clone());
                 }
+            }
+            ROp::FitW(w) => {
+                ppng.fit_width(*w);
+                fit_w = Some(*w);
+            }
+            ROp::FitH(hh) => {
+                ppng.fit_height(*hh);
+                fit_h = Some(*hh);
             }
             ROp::Svg(k) => {
                 let Some(Some(q)) = built.get(*k) else { continue };
@@ -800,18 +814,23 @@ pub fn check_rhistory(h: &RHistory, obs: &mut Obs) -> Result<(), Fail> {
                 renders += 1;
                 sizes.insert(q.size);
                 let p1 = pc("ImageBuilder::to_bytes", || ppng.to_bytes(q).map_err(|e| e.to_string()))?;
+                // a fresh ImageBuilder given only the FINAL value of every option, each once (last value wins)
                 let fresh = pc("ImageBuilder", || {
                     let mut b = ImageBuilder::default();
-                    for o in &prog_png {
-                        apply_svg_op(&mut b, o);
+                    fold_svg(&prog_png).apply(&mut b);
+                    if let Some(w) = fit_w {
+                        b.fit_width(w);
+                    }
+                    if let Some(hh) = fit_h {
+                        b.fit_height(hh);
                     }
                     b.to_bytes(q).map_err(|e| e.to_string())
                 })?;
                 ensure!(
                     p1 == fresh,
                     "renderer_history_dependent:png",
-                    "op {}: the long-lived ImageBuilder (render #{}) and a fresh ImageBuilder with the same setter calls give different PNGs for QR #{} (history {})",
-                    i, renders, k, rhist_json(h)
+                    "op {}: the long-lived ImageBuilder (render #{}) and a fresh ImageBuilder given only the final option values (fit width {:?}, height {:?}) give different PNGs for QR #{} (history {})",
+                    i, renders, fit_w, fit_h, k, rhist_json(h)
                 );
             }
         }
@@ -836,7 +855,9 @@ pub fn rhistory_strategy() -> BoxedStrategy<RHistory> {
             let op = prop_oneof![
                 4 => p_op().prop_map(ROp::Set),
                 5 => (0..k).prop_map(ROp::Svg),
-                1 => (0..k).prop_map(ROp::Png),
+                2 => (0..k).prop_map(ROp::Png),
+                1 => (20u32..400).prop_map(ROp::FitW),
+                1 => (20u32..400).prop_map(ROp::FitH),
             ];
             // most histories start by configuring an embedded image (the part of the output that depends on both
             // margin and symbol size)
